@@ -342,6 +342,7 @@ func (w *wire) setSrvDone() {
 // TLS layer by the real server, or raw junk injected below it.
 type pitem struct {
 	junk bool
+	cert int // != 0, first item: a real handshake with a certificate that must be refused (see pu)
 	b    []byte
 }
 
@@ -349,6 +350,7 @@ type pitem struct {
 type tlsPeer struct {
 	w    *wire
 	cfg  *tls.Config
+	bad  []*tls.Config // server configurations with certificates the client must refuse (index: pu.cert)
 	wg   sync.WaitGroup
 	mu   sync.Mutex
 	sni  []string // server names seen in ClientHellos
@@ -396,7 +398,12 @@ func (p *tlsPeer) run(items []pitem) {
 			}()
 			return true
 		}
-		for _, it := range items {
+		for i, it := range items {
+			if it.cert != 0 && i == 0 && it.cert < len(p.bad) {
+				p.cfg = p.bad[it.cert]
+				start()
+				return // (a client that accepts the certificate gets nothing more)
+			}
 			if it.junk {
 				p.w.pushRaw(it.b)
 				continue
@@ -423,6 +430,25 @@ var domains = []string{"a.example", "b.example", "c.example", "d.example", "expl
 type pki struct {
 	server *tls.Config
 	pool   *x509.CertPool
+	// certificates a client must refuse: issued by the trusted CA for another name; self-signed by
+	// an unknown CA for the right names
+	wrongName, unknownCA *tls.Config
+}
+
+func leafConfig(tmpl, parent *x509.Certificate, parentKey *ecdsa.PrivateKey) (*tls.Config, error) {
+	key, err := ecdsa.GenerateKey(elliptic.P256(), rand.Reader)
+	if err != nil {
+		return nil, err
+	}
+	signer := parentKey
+	if parent == nil {
+		parent, signer = tmpl, key
+	}
+	der, err := x509.CreateCertificate(rand.Reader, tmpl, parent, &key.PublicKey, signer)
+	if err != nil {
+		return nil, err
+	}
+	return &tls.Config{Certificates: []tls.Certificate{{Certificate: [][]byte{der}, PrivateKey: key}}, MinVersion: tls.VersionTLS12}, nil
 }
 
 func newPKI(dir string) (*pki, error) {
@@ -462,7 +488,24 @@ func newPKI(dir string) (*pki, error) {
 	os.Setenv("SSL_CERT_DIR", caDir)
 	pool := x509.NewCertPool()
 	pool.AddCert(cert)
+	leaf := func(serial int64, names []string) *x509.Certificate {
+		return &x509.Certificate{
+			SerialNumber: big.NewInt(serial), Subject: pkix.Name{CommonName: "c02 harness leaf"},
+			NotBefore: time.Now().Add(-time.Hour), NotAfter: time.Now().Add(24 * time.Hour),
+			KeyUsage: x509.KeyUsageDigitalSignature | x509.KeyUsageCertSign, ExtKeyUsage: []x509.ExtKeyUsage{x509.ExtKeyUsageServerAuth},
+			BasicConstraintsValid: true, IsCA: true, DNSNames: names,
+		}
+	}
+	wrongName, err := leafConfig(leaf(2, []string{"elsewhere.example"}), cert, key)
+	if err != nil {
+		return nil, err
+	}
+	unknownCA, err := leafConfig(leaf(3, domains), nil, nil)
+	if err != nil {
+		return nil, err
+	}
 	return &pki{
+		wrongName: wrongName, unknownCA: unknownCA,
 		server: &tls.Config{
 			Certificates: []tls.Certificate{{Certificate: [][]byte{der}, PrivateKey: key}},
 			MinVersion:   tls.VersionTLS12,
